@@ -311,6 +311,14 @@ def validate_trace(tag, base, trace_file, consts=None, timeout=600, heap="4g", v
     rej = tagged_lines(text, "TRACE-REJECT")
     acc = tagged_lines(text, "ACCEPTED")
     div = tagged_lines(text, "IMPL-DIVERGED")
+    marker = "The error occurred when TLC was evaluating the nested"
+    if not rej and not acc and marker in text:
+        # the recorded observation has a shape on which a clause of the trace specification cannot even be evaluated (an index
+        # outside a reported table, a missing field): every trace recorded from the unchanged code evaluates, so this is a
+        # rejected trace - reported at the last event reached - and not a failure of the tool
+        head = text[:text.index(marker)]
+        msg = [ln.strip() for ln in head.splitlines() if ln.strip() and not ln.startswith(("TLC2", "Running", "Picked up", "Parsing", "Semantic", "Starting", "Computing", "Computed", "Finished", "Progress"))]
+        rej = [{"at": tl["distinct"], "why": "EVAL: the recorded observation cannot be evaluated against the specification: " + " ".join(msg[-3:])[:400], "event": {}}]
     res = {"accepted": bool(acc) and not rej and "REJECTED" not in text, "reject": rej[0] if rej else None,
            "impl_diverged": div[0] if div else None,
            "states": tl["distinct"], "generated": tl["generated"], "wall_s": round(time.time() - t0, 1),
